@@ -2447,6 +2447,15 @@ func (a *Authenticator) exchangeKey(ctx context.Context, negotiation *SecurityNe
 			slog.Info(fmt.Sprintf("🔑 CLIENT: Receiving key - length: %d, protocol: %d, duration: %d, inputLen: %d",
 				keyLength, protocol, duration, inputLen), "destination", "cedar")
 
+			// inputLen is chosen by the peer: bound it before it sizes a buffer
+			// (a negative value would panic in make, a huge one would allocate
+			// far more than the peer ever sends). A wrapped session key is a few
+			// dozen bytes.
+			const maxWrappedKeyLen = 4096
+			if inputLen < 0 || inputLen > maxWrappedKeyLen {
+				return fmt.Errorf("invalid wrapped key length %d from server (max %d)", inputLen, maxWrappedKeyLen)
+			}
+
 			// Read encrypted key data
 			encryptedKey := make([]byte, inputLen)
 			for i := 0; i < inputLen; i++ {
